@@ -111,7 +111,20 @@ fn core_blocks(type_idx: usize, seed: &[u8], blocks: usize, sub: &str, id: u64, 
         IDX_HC128 => {
             let mut core = rand_hc::Hc128Core::from_seed(seed.try_into().unwrap());
             let mut res = [0u32; 16];
+            let mut q = Prng::new(id ^ 0xc10e);
             for b in 0..blocks {
+                // the keystream continues across clone() / clone_from() of the core
+                match q.below(24) {
+                    0 => core = core.clone(),
+                    1 => {
+                        let mut other = rand_hc::Hc128Core::from_seed(q.bytes(32).try_into().unwrap());
+                        for _ in 0..q.below(70) { other.generate(&mut res); }
+                        other.clone_from(&core);
+                        core = other;
+                        r.cov("core_clone_from");
+                    }
+                    _ => {}
+                }
                 core.generate(&mut res);
                 for (j, &w) in res.iter().enumerate() {
                     r.eval();
@@ -129,7 +142,20 @@ fn core_blocks(type_idx: usize, seed: &[u8], blocks: usize, sub: &str, id: u64, 
         IDX_ISAAC => {
             let mut core = rand_isaac::isaac::IsaacCore::from_seed(seed.try_into().unwrap());
             let mut res = <rand_isaac::isaac::IsaacCore as BlockRngCore>::Results::default();
+            let mut q = Prng::new(id ^ 0xc10e);
             for b in 0..blocks {
+                match q.below(6) {
+                    0 => core = core.clone(),
+                    1 => {
+                        let mut other = rand_isaac::isaac::IsaacCore::from_seed(q.bytes(32).try_into().unwrap());
+                        let mut scratch = <rand_isaac::isaac::IsaacCore as BlockRngCore>::Results::default();
+                        for _ in 0..q.below(4) { other.generate(&mut scratch); }
+                        other.clone_from(&core);
+                        core = other;
+                        r.cov("core_clone_from");
+                    }
+                    _ => {}
+                }
                 core.generate(&mut res);
                 for j in 0..256 {
                     r.eval();
@@ -147,7 +173,20 @@ fn core_blocks(type_idx: usize, seed: &[u8], blocks: usize, sub: &str, id: u64, 
         IDX_ISAAC64 => {
             let mut core = rand_isaac::isaac64::Isaac64Core::from_seed(seed.try_into().unwrap());
             let mut res = <rand_isaac::isaac64::Isaac64Core as BlockRngCore>::Results::default();
+            let mut q = Prng::new(id ^ 0xc10e);
             for b in 0..blocks {
+                match q.below(6) {
+                    0 => core = core.clone(),
+                    1 => {
+                        let mut other = rand_isaac::isaac64::Isaac64Core::from_seed(q.bytes(32).try_into().unwrap());
+                        let mut scratch = <rand_isaac::isaac64::Isaac64Core as BlockRngCore>::Results::default();
+                        for _ in 0..q.below(4) { other.generate(&mut scratch); }
+                        other.clone_from(&core);
+                        core = other;
+                        r.cov("core_clone_from");
+                    }
+                    _ => {}
+                }
                 core.generate(&mut res);
                 for j in 0..256 {
                     r.eval();
@@ -320,6 +359,49 @@ fn case(prop: u32, sub: &str, id: u64, ctx: &Ctx, r: &mut Report) {
                 r.cov(&format!("seed_class:{}", class));
             });
         }
+        // exhaustive short operation sequences around the block boundary, checked
+        // against the MODEL's word stream: id = ((type slot * 8 + start*2 + half) << 20) | sequence
+        "model_boundary" => {
+            use super::c05::{apply, boundary_alphabet, boundary_sequence, PFam, Proj};
+            use crate::drive::Op;
+            let ti = types[((id >> 24) as usize) % types.len()];
+            let start_slot = ((id >> 21) & 7) as usize;
+            let half = (id >> 20) & 1 == 1;
+            let seq = id & 0xfffff;
+            with_spec!(ti, S => {
+                let fam = PFam::from(S::FAMILY);
+                let a = boundary_alphabet(fam).len() as u64;
+                let bw = S::FAMILY.block_words();
+                let starts = [bw.saturating_sub(2).max(1), bw.saturating_sub(1).max(1), bw, 0, 1];
+                if seq < a * a * a && start_slot < starts.len() && (!half || matches!(fam, PFam::Block64(_))) {
+                    let mut q = Prng::new(id ^ 0x5eed);
+                    let seed = q.bytes(S::SEED_LEN);
+                    let mut model = RefModel::from_seed(S::NAME, &seed);
+                    let mut rng = S::from_seed(&seed);
+                    let mut words: Vec<u64> = Vec::new();
+                    let mut proj = Proj::new(fam);
+                    let native = if matches!(fam, PFam::Block64(_)) { Op::U64 } else { Op::U32 };
+                    let mut ops: Vec<Op> = vec![native; starts[start_slot]];
+                    if half { ops.push(Op::U32); }
+                    ops.extend(boundary_sequence(fam, 3, seq));
+                    ops.push(Op::U32);
+                    ops.push(Op::U64);
+                    for (i, op) in ops.iter().enumerate() {
+                        let want = proj.expect(op, &mut |k| { while words.len() <= k { words.push(model.next()); } words[k] });
+                        let got = apply(&mut rng, op);
+                        r.eval();
+                        if got != want {
+                            r.violation(format!("{}:boundary_sequence_vs_model", S::NAME), sub, id, json!({
+                                "type": S::NAME, "seed": hex(&seed), "native_words_first": starts[start_slot], "half_word_read": half,
+                                "ops_after": crate::drive::show_ops(&ops[starts[start_slot]..=i]), "expected": want.show(), "observed": got.show()}));
+                            return;
+                        }
+                    }
+                    r.cov(&format!("model_boundary:{}", S::NAME));
+                    r.distinct(hkey(&[&"model_boundary", &S::NAME, &id]));
+                }
+            });
+        }
         // one generator stepped 2^32 + 8 times (position counters narrower than
         // the period, wrap of any 32-bit bookkeeping); state image at the end
         "wrap32" => {
@@ -443,6 +525,24 @@ pub fn run(prop: u32, ctx: &Ctx, only: Option<&Only>) -> Report {
         }));
     }
     if prop == 2 || prop == 3 {
+        // every 3-operation sequence over the boundary alphabet from 5 start positions
+        let types = types_of(prop);
+        total.merge(crate::util::par(ctx.threads, |t, r| {
+            let mut k = 0u64;
+            for slot in 0..types.len() as u64 {
+                for start in 0..5u64 {
+                    for half in 0..2u64 {
+                        for seq in 0..(14u64 * 14 * 14) {
+                            if k % ctx.threads as u64 == t as u64 && ctx.keep(k) {
+                                let id = (slot << 24) | (start << 21) | (half << 20) | seq;
+                                super::run_case("model_boundary", id, r, &|id, r: &mut Report| case(prop, "model_boundary", id, ctx, r));
+                            }
+                            k += 1;
+                        }
+                    }
+                }
+            }
+        }));
         total.merge(drive(ctx, "core", ctx.n(400, 4_000), secs * 0.1, |id, r| case(prop, "core", id, ctx, r)));
     }
     if prop == 2 {
